@@ -214,4 +214,76 @@ example : (createCache (some exTr) [(some (0, 10), [5]), (none, [7, 9]), (some (
     = some [(some (0, 10), [(1, 1)]), (none, [(0, 2), (2, 0)]), (some (0, 11), [(1, 1)])] := by
   decide +kernel
 
+/-- "... are accepted by the next stage and identify clusters and genes consistently by name",
+sharpened: against the statistics file it was derived from, a marker table made by the selection
+stage can be refused by the marker cache ONLY with the two messages of `validate_marker_lookup`
+about the query lacking markers — never "marker genes are not in the reference dataset", never
+the cache writer's "No markers at parent node … present in query set", never a `KeyError` of a
+name table — and it is accepted exactly when no consulted parent is in C08's error condition
+`errAt` (root list empty / nothing the table offers the parent is a query gene). -/
+theorem names_consistent_table_rejections (f : StatsFile) (hT : TreeWF f.tree) (order : List PKey)
+    (chosen : PKey → List Nat) (lk : Lookup) (Q : List Gene) (m : Nat)
+    (hp : order.Perm f.tree.allParents)
+    (h : markerTable (refFileOf f) order chosen = .ok lk) :
+    (∀ e, createCache (some f.tree) lk f.colNames Q m = .error e →
+      e = .noMarkersAnyLevel ∨ e = .validating) ∧
+    ((∃ c, createCache (some f.tree) lk f.colNames Q m = .ok c) ↔
+      ∀ p ∈ f.tree.allParents, Consulted f.tree p → ¬ errAt f.tree lk Q m p) := by
+  have hnd : order.Nodup := hp.nodup_iff.2 (treeOK_of_wf _ hT).parentsNodup
+  have hk := markerTable_keysNodup _ order chosen lk h hnd
+  have hR := markerTable_genes (refFileOf f) order chosen lk h
+  exact ⟨createCache_error_query_only f.tree hT lk f.colNames Q m hk hR,
+    createCache_ok_iff f.tree hT lk f.colNames Q m hk hR⟩
+
+example : createCache (some exTr) [(some (0, 10), [5]), (none, [7, 9]), (some (0, 11), [5])]
+      [7, 5, 9] [4] 1 = .error .noMarkersAnyLevel ∧
+    createCache (some exTr) [(some (0, 10), [5]), (none, [7, 9]), (some (0, 11), [5])]
+      [7, 5, 9] [5] 1 = .error .validating := by decide +kernel
+
+/-- "selected markers produced by the pipeline's own stages …": the order in which the workers
+deliver the parents is immaterial.  Two delivery orders of the same parents either both give a
+table or both raise; the two tables are permutations of each other and answer every key lookup
+`marker_lookup[k]` identically; hence (everything downstream reads the table by key) the
+validation's error condition at every parent is the same, and the marker cache accepts the one
+exactly when it accepts the other. -/
+theorem names_consistent_table_order_immaterial (r : RefFile) (order order' : List PKey)
+    (chosen : PKey → List Nat) (hp : order.Perm order') :
+    ((∃ lk, markerTable r order chosen = .ok lk) ↔ ∃ lk', markerTable r order' chosen = .ok lk') ∧
+    ∀ lk lk', markerTable r order chosen = .ok lk → markerTable r order' chosen = .ok lk' →
+      lk.Perm lk' ∧ (∀ k, get? lk k = get? lk' k) ∧
+      ∀ t : RawTree, TreeWF t → order.Perm t.allParents → ∀ (Q : List Gene) (m : Nat),
+        (∀ p, errAt t lk Q m p ↔ errAt t lk' Q m p) ∧
+        ((∃ c, createCache (some t) lk r.geneNames Q m = .ok c) ↔
+          ∃ c', createCache (some t) lk' r.geneNames Q m = .ok c') := by
+  refine ⟨⟨?_, ?_⟩, ?_⟩
+  · rintro ⟨lk, h⟩
+    obtain ⟨lk', h', _⟩ := markerTable_perm r order order' chosen hp lk h
+    exact ⟨lk', h'⟩
+  · rintro ⟨lk', h'⟩
+    obtain ⟨lk, h, _⟩ := markerTable_perm r order' order chosen hp.symm lk' h'
+    exact ⟨lk, h⟩
+  · intro lk lk' h h'
+    obtain ⟨lk2, h2, hperm, hget⟩ := markerTable_perm r order order' chosen hp lk h
+    rw [h'] at h2
+    cases h2
+    refine ⟨hperm, hget, ?_⟩
+    intro t hT hpt Q m
+    have herr : ∀ p, errAt t lk Q m p ↔ errAt t lk' Q m p :=
+      fun p => errAt_congr t lk lk' Q m p hget
+    refine ⟨herr, ?_⟩
+    have hnd : order.Nodup := hpt.nodup_iff.2 (treeOK_of_wf _ hT).parentsNodup
+    have hnd' : order'.Nodup := hp.nodup_iff.1 hnd
+    rw [createCache_ok_iff t hT lk r.geneNames Q m (markerTable_keysNodup r order chosen lk h hnd)
+        (markerTable_genes r order chosen lk h),
+      createCache_ok_iff t hT lk' r.geneNames Q m (markerTable_keysNodup r order' chosen lk' h' hnd')
+        (markerTable_genes r order' chosen lk' h')]
+    constructor
+    · intro H p hpm hc he; exact H p hpm hc ((herr p).2 he)
+    · intro H p hpm hc he; exact H p hpm hc ((herr p).1 he)
+
+example : markerTable (prepOutput [33, 30, 31] [7, 5, 9]) [none, some (0, 11), some (0, 10)]
+      (fun p => if p == none then [0, 2] else [1])
+      = .ok [(none, [7, 9]), (some (0, 11), [5]), (some (0, 10), [5])] ∧
+    [some (0, 10), none, some (0, 11)].Perm [none, some (0, 11), some (0, 10)] := by decide
+
 end CTM.C18
